@@ -311,14 +311,21 @@ PROPS = {
                  "opened = closed and no helper goroutine remains (no_leak, balance_invariant), prompt return after cancel (closer_shutdown_prompt) — "
                  "Lean theorems over the discipline skeletons; which function follows which discipline is extracted from the source on every run "
                  "(Expect.c19_socket_disciplines); the real functions are fault-enumerated on the virtual sockets (n-th create/write/read fails, "
-                 "cancel at every listed instant) with open/close counters and goroutine counts.",
+                 "cancel at every listed instant) with open/close counters and goroutine counts. The constructors of lib/rsocks themselves (the files the "
+                 "virtual network replaces): which error returns close the descriptor is extracted from the source on every run and the constructor model "
+                 "leaks for no failure placement (rsocks_ctors_no_leak, ctor_leak_of_unclosed for the converse); the real constructors are called in a "
+                 "child process built without the verif tag, on lo and on a non-existent interface, with exact descriptor accounting.",
         "props": ["C19"],
-        "streams": [{"test": "TestResFaults", "names": ["resfaults"], "timeout": 300}, {"test": "TestHookShutdown", "names": ["hook"], "timeout": 120}],
+        "streams": [{"test": "TestResFaults", "names": ["resfaults"], "timeout": 300}, {"test": "TestHookShutdown", "names": ["hook"], "timeout": 120},
+                    {"test": "TestRsocksReal", "names": ["rsocksreal"], "timeout": 120}],
         "rule": "functions {arpping.Ping, dclient.sendMessage (broadcast and the unicast renewal path), dclient.catchReply, server.Run+handlers, the hook runner with three real scripts incl. SIGTERM-ignoring ones} x answers x {no fault, n-th socket creation fails "
                 "(n=1..6), n-th write fails (1..3), n-th read fails (1..3), cancel at 0/1/49/50/199/200/201/650/700/1500 ms}; thorough adds fault x "
-                "cancel pairs and 1500 random triples; non-trivial = at least one socket was opened",
+                "cancel pairs and 1500 random triples; non-trivial = at least one socket was opened; real lib/rsocks: 5 constructors x {lo, interface index that does "
+                "not exist (bind fails after socket(2))} x hardware-address lengths {0,1,6,7,8,9,16,20,255}, 8 repetitions each, GC off, /proc/self/fd counted",
         "trusted": ["vnet socket fakes count opens/closes per kind; runtime.NumGoroutine inside a synctest bubble",
-                    "factgen's discipline classifier (syntactic shape of open / defer Close / closer goroutine per function)"],
+                    "factgen's discipline classifier (syntactic shape of open / defer Close / closer goroutine per function) and constructor classifier "
+                    "(syscall.Close(fd) before each error return after syscall.Socket)",
+                    "the kernel's AF_PACKET bind failing with ENODEV for an interface index that does not exist (the only set-up failure the probe can provoke)"],
         "partial": "Partial: real file descriptors, the runtime poller and timer leaks (time.After) are not exhibited; the theorems are about "
                    "discipline skeletons, tied to the code by the extracted facts and the fault enumeration.",
         "technique": "Lean 4 theorems over discipline skeletons + source facts regenerated per run + fault enumeration of the real functions",
